@@ -23,7 +23,7 @@ for name in $LIST; do
   only=$(python3 -c "import json;print(json.load(open('$d/meta.json')).get('tier',''))")
   git -C "$REPO" apply $PWD/$d/patch.diff || { echo "PATCH-DOES-NOT-APPLY $name"; fail=1; continue; }
   ids="$prop"; [ $ALLC -eq 1 ] && ids="C04 C05 C09 C11 C13 C15 C16"
-  caught=""
+  caught=""; broken=""
   for id in $ids; do
     for tier in quick thorough; do
       [ "$only" = thorough ] && [ $tier = quick ] && continue
@@ -34,13 +34,15 @@ for name in $LIST; do
         rp=$(echo "$out" | sed -n 's/^VIOLATION property=[^ ]* replay=//p' | head -1)
         sig=$(echo "$out" | sed -n 's/^violation: run=[0-9]* signature=\(.*\) class=.*/\1/p' | head -1)
         ./check $id --replay "$rp" >/dev/null 2>&1; rrc=$?
-        caught="$caught $id/$tier[$sig]$( [ $rrc -ne 1 ] && echo '(REPLAY-PASSES!)')"
+        if [ $rrc -eq 1 ]; then caught="$caught $id/$tier[$sig]"; else broken="$broken $id/$tier[$sig](REPLAY-PASSES!)"; fi
       elif [ $rc -ne 0 ]; then
-        caught="$caught $id/$tier(HARNESS-ERROR rc=$rc)"
+        broken="$broken $id/$tier(HARNESS-ERROR rc=$rc)"
       fi
     done
   done
-  if [ -n "$caught" ]; then echo "CAUGHT  $name ($prop):$caught"; else echo "MISSED  $name ($prop)"; fail=1; fi
+  # a harness error or a replay that does not re-fail is a broken check, not a detection
+  if [ -n "$broken" ]; then echo "BROKEN  $name ($prop):$broken$caught"; fail=1
+  elif [ -n "$caught" ]; then echo "CAUGHT  $name ($prop):$caught"; else echo "MISSED  $name ($prop)"; fail=1; fi
   git -C "$REPO" checkout -- . 
 done
 exit $fail
